@@ -355,6 +355,55 @@ def literal_cases():
     return out
 
 
+KEY_FORMS = ["Object.keys({%s: 1})[0]", "var o = {%s: 'v'}; o[%s]", "var o = {get %s() { return 'g' }}; Object.keys(o)[0] + o[%s]",
+             "var o = {%s() { return 'm' }}; Object.keys(o)[0] + typeof o[%s]", "var o = {%s: 1, [%s]: 2}; Object.keys(o).length + ':' + o[%s]",
+             "JSON.stringify({%s: 1})"]     # (the position of integer-like keys in key order is not part of this property)
+KEY_SPELLINGS = ["1e-7", "1E-7", "0.0000001", "0.000001", "1e-6", "5.0", "5.", ".5", "0.50", "1e3", "1E3", "1e+3", "1000.0", "123456789012345680000",
+                 "123456789012345678901", "1e21", "1e+21", "1E21", "1e20", "100000000000000000000", "0x10", "0X1f", "0b11", "0o17", "0.0", "0", "00",
+                 "1.5e3", "1.5e-3", "9007199254740993", "1e400", "1e-400", "4294967295", "4294967296", "2147483648", "1_000", "0.1e1", "1e0", "1e1",
+                 "1e300", "1.7976931348623157e308", "5e-324", "0.1", "0.30000000000000004", "1.0e-7", "12e-8", "001", "08"]
+
+
+def literal_key_cases():
+    out = []
+    vals = [v for v in print_core_values() if not isinstance(v, int) and v == v and v >= 0 and v != float("inf") and str(v)[0] != "-"]
+    spell = list(dict.fromkeys(KEY_SPELLINGS + [lit(v) for v in vals]))
+    for sp in spell:
+        for f in KEY_FORMS:
+            src = f.replace("%s", sp)
+            out.append((src, {"src": src, "nt": not sp.isdigit()}))
+    return out
+
+
+LONG_STRINGS = (["0" * n + "7" for n in (10, 398, 399, 400, 401, 402, 1000, 4299, 4300, 4301, 5000)] +
+                ["-" + "0" * n for n in (10, 399, 400, 401, 5000)] + ["+" + "0" * 500 + "12"] +
+                ["1" + "0" * n for n in (21, 22, 300, 307, 308, 309, 399, 400, 401, 1000, 4300, 5000)] +
+                ["-1" + "0" * n for n in (308, 309, 400, 401, 5000)] +
+                ["9" * n for n in (308, 309, 310, 400, 401, 4300, 4301)] +
+                ["0" * 500 + ".5", "0." + "0" * 500 + "1", "0." + "0" * 322 + "1", "0." + "0" * 323 + "1", "0." + "0" * 323 + "3", "0." + "0" * 324 + "1",
+                 "1" + "0" * 500 + "e-500", "0." + "0" * 500 + "1e501", "1" * 400 + ".5", "1" * 401 + ".5", " " * 500 + "7", "7" + " " * 500, "0" * 500 + "x1",
+                 "0x" + "0" * 500 + "1f", "0x" + "f" * 255, "0x" + "f" * 256, "0x" + "f" * 257, "0b" + "1" * 1023, "0b" + "1" * 1024, "0b" + "1" * 1025,
+                 "0o" + "7" * 341, "0o" + "7" * 342, "1e" + "0" * 500 + "2", "1e-" + "0" * 500 + "2", "1" + "0" * 500 + "px", "0" * 500 + "e1",
+                 "1." + "0" * 500, "1." + "0" * 500 + "1", "1." + "9" * 500, "4.35" + "0" * 450, "0.5" + "0" * 500 + "1", "1.5" + "0" * 500 + "1",
+                 "9007199254740993" + "." + "0" * 500 + "1", "9007199254740992." + "9" * 500])
+LONG_FORMS = ["Number(%s)", "+%s", "%s * 1", "parseFloat(%s)", "parseInt(%s)", "parseInt(%s, 16)", "parseInt(%s, 2)", "parseInt(%s, 36)", "%s | 0", "%s >>> 0",
+              "%s == 7", "%s < 8", "isNaN(%s)", "isFinite(%s)", "Math.abs(%s)", "1 / %s", "new Uint8Array([%s])[0]", "[1, 2, 3][%s]", "'abc'.charAt(%s)"]
+
+
+VALUE_FORMS = ["parseInt(x)", "parseFloat(x)", "Number.parseInt(x)", "parseInt(x, 10)", "parseInt(x, undefined)", "parseInt(x, 0)", "parseInt(x, 16)",
+               "1 / parseInt(x)", "Number(x)", "parseInt([x])", "parseInt({valueOf: function () { return 5 }, toString: function () { return x }})",
+               "parseFloat([x, 1])", "Number.parseFloat(x)", "parseInt(-x)", "parseInt(x + '')", "parseInt(new Number(x))", "Math.trunc(x) === parseInt(x)"]
+
+
+def value_parse_cases():
+    out = []
+    for v in print_core_values():
+        nt = not small_int(v)
+        for f in VALUE_FORMS:
+            out.append(vcase(v, f, nt))
+    return out
+
+
 # ------------------------------------------------------------------------------------------ Math
 
 # fixed list: the functions installed by Context._create_math_object (random excluded: not a function of its input)
@@ -540,6 +589,17 @@ def core_spaces():
                "numeric literal spellings in source: integer/fraction/exponent combinations, leading and trailing dot, "
                "hex/octal/binary with both prefix cases, member access on literals, separators, malformed spellings "
                "(SyntaxError expected)", "~500 spellings"),
+        _space("c18_literal_key", literal_key_cases,
+               "numeric literals as property names in object literals (data property, getter, method, next to a computed key of the same "
+               "number, JSON.stringify, key order): %d hand-listed spellings + the exact decimal of every non-negative double of the core "
+               "value grid x %d forms" % (len(KEY_SPELLINGS), len(KEY_FORMS)), "~2.4 k spellings x 6"),
+        _space("c18_parse_long", lambda: parse_cases(LONG_STRINGS, LONG_FORMS),
+               "%d numeric strings of 300..5000 characters (zero-padded, digit runs across 308/309, 400/401 and 4300/4301 characters, long "
+               "fractions, long hex/binary/octal, padded exponents, long whitespace) x %d conversion sites" % (len(LONG_STRINGS), len(LONG_FORMS)),
+               "%d x %d" % (len(LONG_STRINGS), len(LONG_FORMS))),
+        _space("c18_parse_values", value_parse_cases,
+               "parseInt / parseFloat / Number applied to number VALUES (not strings) over the core value grid, with and without radix, "
+               "wrapped in arrays and objects, negated; -0 results distinguished", "4.6 k doubles x %d" % len(VALUE_FORMS)),
         _space("c18_math", math_cases,
                "28 Math functions x 63 special values (also as host integers, missing and non-number arguments); arity-2 "
                "functions x all pairs of 20 values; constants of Math and Number; typeof of every ES2015 Math function. "
